@@ -504,6 +504,11 @@ class KafkaClient(object):
         def _handleMetadataResponse(response):
             brokers, topics = KafkaCodec.decode_metadata_response(response)
             self._merge_topic_metadata(brokers, topics, fetch_all_metadata)
+            if self._closing:
+                # close() was called while the response was being merged (from a callback
+                # of a request that the merge failed by retiring its broker): the operation
+                # ends as cancelled, like every other one in progress at close().
+                return None
             return True
 
         def _handleMetadataErr(failure):
@@ -542,6 +547,10 @@ class KafkaClient(object):
         # Take the metadata we got back, update our self.clients, and
         # if needed disconnect or connect from/to old/new brokers
         self._update_brokers(brokers.values(), remove=ok_to_remove)
+        if self._closing:
+            # Retiring a broker fails its pending requests, and one of their callbacks
+            # closed the client: the cache close() has cleared must stay cleared.
+            return
 
         # Now loop through all the topics/partitions in the response
         # and setup our cache/data-structures
